@@ -14,11 +14,17 @@
        the value model used by every other property is adequate for live, mutable packets.  The model's aliasing behaviour is
        tied to bisturi by the identity correspondence of harness/props/C13.py (which (packet, path) pairs are one object
        after every operation of a history) and by the template kernels of init / Ref / Prototype.
-   PARTIAL: real thread interleavings (bytecode level, under the GIL) are not expressible in either model; they are
-   exercised on the implementation only.  Finding D8 (the dstate itself) is a KNOWN-FINDING; D9 was repaired. *)
+   (c) Proofs/Interleave.v: THREADS at the granularity of one user operation.  A schedule is any merge of the threads'
+       operation lists; when the threads work on distinct packets, every thread observes under every schedule exactly the
+       raises and pack() outputs it observes running alone, its packets end as they end when it runs alone, any two
+       schedules of the same threads end in the same world, and the same holds of the object world (through adequacy).
+   PARTIAL: thread switches INSIDE one operation (bytecode level, under the GIL) are not expressible in either model; that
+   one operation reads and writes only cells of its own packet (C13_step_local, C13_pack_writes_no_cell) and never writes
+   class-level state (C13_parse_writes_nothing; the write monitor of the check) is what makes operation granularity
+   adequate, and it is exercised on the implementation (8 threads).  Finding D8 (the dstate itself) is a KNOWN-FINDING; D9 was repaired. *)
 From Coq Require Import ZArith List Bool.
 From Bisturi Require Import Base.Bytes Kernel.Frag Model.Value Model.Decl Model.Unpack Model.Pack Model.Codegen Model.World
-                            Model.Init Model.Canon Model.Heap Model.HeapSpec Proofs.WorldProofs Proofs.HeapProofs Proofs.HeapAdequacy.
+                            Model.Init Model.Canon Model.Heap Model.HeapSpec Proofs.WorldProofs Proofs.HeapProofs Proofs.HeapAdequacy Proofs.Interleave.
 Import ListNotations. Open Scope Z_scope.
 
 (* parsing writes no class-level state (every regex delimiter kept in the value) ... *)
@@ -127,6 +133,53 @@ Theorem C13_adequacy_step : forall host ct w fw o,
   end.
 Proof. exact adequacy_step. Qed.
 
+(* ---- threads (operation granularity): every schedule of threads that work on distinct packets ---- *)
+(* each thread sees the raises and the pack() outputs it sees running alone ... *)
+Theorem C13_thread_isolation_outs : forall host ct (I : sched) fw t, distinct_packets I ->
+  outs_of t (s_outs host ct fw I) = f_outs host ct fw (proj t I).
+Proof. exact thread_isolation_outs. Qed.
+(* ... its packets end as they end when it runs alone ... *)
+Theorem C13_thread_isolation_final : forall host ct (I : sched) fw t r, distinct_packets I -> In r (names (proj t I)) ->
+  fw_get (fold_left (f_run1 host ct) (map snd I) fw) r = fw_get (fold_left (f_run1 host ct) (proj t I) fw) r.
+Proof. exact thread_isolation_final. Qed.
+(* ... two schedules of the same threads end in the same world ... *)
+Theorem C13_schedules_agree : forall host ct (I J : sched) fw, distinct_packets I ->
+  (forall t, proj t I = proj t J) -> (forall t o, In (t, o) J -> In (t, o) I) ->
+  fw_equiv (fold_left (f_run1 host ct) (map snd I) fw) (fold_left (f_run1 host ct) (map snd J) fw).
+Proof. exact schedules_agree. Qed.
+(* ... operations on distinct packets commute, outputs included ... *)
+Theorem C13_operations_commute : forall host ct fw o1 o2,
+  (forall x, In x (touches o1) -> In x (touches o2) -> False) ->
+  fw_equiv (f_run1 host ct (f_run1 host ct fw o1) o2) (f_run1 host ct (f_run1 host ct fw o2) o1) /\
+  f_out host ct (f_run1 host ct fw o2) o1 = f_out host ct fw o1 /\
+  f_out host ct (f_run1 host ct fw o1) o2 = f_out host ct fw o2.
+Proof. exact f_run1_commute. Qed.
+(* ... and the same of live objects: under every schedule without user sharing each packet of thread t reads as the tree
+   it reads as when t runs alone *)
+Theorem C13_heap_thread_isolation : forall host ct (I : sched) t r a,
+  distinct_packets I -> forallb op_no_share (map snd I) = true -> In r (names (proj t I)) ->
+  let wI := fold_left (w_run1 host ct) (map snd I) w_empty in
+  let wt := fold_left (w_run1 host ct) (proj t I) w_empty in
+  root_get (roots wI) r = Some a ->
+  exists a' tr, root_get (roots wt) r = Some a' /\ den (hp wI) (HRef a) tr /\ den (hp wt) (HRef a') tr.
+Proof. exact heap_thread_isolation. Qed.
+(* non-vacuity: two threads on packets of one class, interleaved *)
+Example C13_threads_example : distinct_packets il_sched /\
+  s_outs false il_ct [] il_sched =
+  [(0%nat, Some None); (1%nat, Some None); (1%nat, Some None); (0%nat, Some (Some [7; 8])); (1%nat, Some (Some [9; 2]));
+   (0%nat, Some None); (0%nat, Some (Some [7; 3]))].
+Proof.
+  split; [| exact il_outs].
+  unfold distinct_packets, il_sched. intros t1 o1 t2 o2 x H1 H2 Hne Hx1 Hx2.
+  cbn [In] in H1, H2.
+  repeat match goal with H : _ \/ _ |- _ => destruct H as [H | H] end;
+    try contradiction;
+    repeat match goal with H : (_, _) = (_, _) |- _ => inversion H; clear H; subst end;
+    try (exfalso; apply Hne; reflexivity);
+    cbn in Hx1, Hx2;
+    repeat match goal with H : _ \/ _ |- _ => destruct H as [H | H] end; try contradiction; subst; discriminate.
+Qed.
+
 Print Assumptions C13_parse_writes_nothing.
 Print Assumptions C13_adequacy_history.
 Print Assumptions C13_adequacy_raises.
@@ -143,3 +196,9 @@ Print Assumptions C13_pack_preserves_fields.
 Print Assumptions C13_pack_twice.
 Print Assumptions C13_pack_twice_fresh.
 Print Assumptions C13_pack_twice_refuted_hidden_read.
+Print Assumptions C13_thread_isolation_outs.
+Print Assumptions C13_thread_isolation_final.
+Print Assumptions C13_schedules_agree.
+Print Assumptions C13_operations_commute.
+Print Assumptions C13_heap_thread_isolation.
+Print Assumptions C13_threads_example.
